@@ -157,15 +157,13 @@ class DataPath:
 
         REPLACE = "path"
         ESC_CODE = rf"\{REPLACE}"
-        is_escaped = False
-        for k in list(spec.keys()):
-            if ESC_CODE in k:
-                is_escaped = True
-                spec_val = spec.pop(k)
-                k_new = k.replace(ESC_CODE, REPLACE)
-                spec[k_new] = spec_val
-        if is_escaped:
-            return spec
+        if any(ESC_CODE in k for k in spec):
+            # a literal mapping whose keys look like a path spec: un-escape the keys in a new
+            # mapping (the caller's `spec` is left as it is, so it can be parsed again)
+            return {
+                (k.replace(ESC_CODE, REPLACE) if ESC_CODE in k else k): v
+                for k, v in spec.items()
+            }
 
         if len(spec) > 1:
             raise MalformedDataPathSpec(
